@@ -114,7 +114,7 @@ func genRoute(e *emitter, r *rng.R, n int, tier string) {
 	}
 	for i := 0; i < n; i++ {
 		rr := r.Fork(uint64(i))
-		ks := rr.Pick([]string{"", "system", "SYSTEM", "app", "\"system\""})
+		ks := rr.Pick([]string{"", "system", "SYSTEM", "app", "\"system\"", "\"System\"", "\"SYSTEM\"", "\"app\"", "System"})
 		qual := rr.Pick([]string{"", "system.", "System.", "app.", "\"system\".", "system_auth."})
 		tbl := rr.Pick([]string{"local", "peers", "peers_v2", "PEERS", "locals", "users", "\"Local\"", "schema_columns"})
 		ksSys := strings.EqualFold(ks, "system") || ks == "\"system\""
